@@ -123,6 +123,28 @@ def _worker_init(src, modname, tier, seed, verif_root):
     signal.signal(signal.SIGINT, signal.SIG_IGN)
 
 
+def call_run_case(mod, case):
+    """Every execution of a case goes through here: the interpreter's recursion limit is set RELATIVE to the current
+    stack depth, so that a library bug that recurses without bound (send_request retries are recursive) hits
+    RecursionError after the same number of steps whether the case runs in a batch, alone or as a replay."""
+    depth = 0
+    f = sys._getframe()
+    while f is not None:
+        depth += 1
+        f = f.f_back
+    old = sys.getrecursionlimit()
+    sys.setrecursionlimit(depth + 1200)
+    try:
+        return mod.run_case(case)
+    finally:
+        sys.setrecursionlimit(old)
+
+
+def run_case_entry(arg):
+    mod, case = arg
+    return call_run_case(mod, case)
+
+
 def _reset_globals():
     """Module-level state of the library that a previous run in the same child may have advanced."""
     gp = sys.modules.get("goodwe.protocol")
@@ -149,12 +171,12 @@ def _case_runner(indices):
     for index in indices:
         _reset_globals()
         case = mod.make_case(_W["tier"], _W["seed"], index)
-        out.append(_slim(mod.run_case(case), index))
+        out.append(_slim(call_run_case(mod, case), index))
     return out
 
 
 def _replay_runner(case):
-    return _W["mod"].run_case(case)
+    return call_run_case(_W["mod"], case)
 
 
 def _worker_chunk(indices):
